@@ -24,6 +24,22 @@
 //     "exporting spans … total_dropped" debug log line).
 //   - A phase that starts right after a successful ForceFlush with no other
 //     activity, and ends no more spans than the queue holds, cannot lose any.
+//   - "Sampled" is bit 0 of the span's trace flags and nothing else: the whole
+//     flags byte is generated (a span inherits the other seven bits from its
+//     remote or local parent), and a span with that bit set is owed delivery
+//     whatever the other bits are.
+//   - "That call returns without error" includes the call an application
+//     actually makes, TracerProvider.ForceFlush / Shutdown over several
+//     processors: when it returns nil, every registered batch processor is held
+//     to the delivery clause (sub-check provider_pipeline, pipeline_test.go).
+//   - "The configured maximum" / queue size are whatever was configured, by
+//     option or by the OTEL_BSP_* environment variables (only values the
+//     variables express exactly and the SDK does not clip are moved there).
+//
+// Sub-checks: bsp_history (this file: concurrent programs, one processor),
+// bsp_fill (this file: exact queue fill level), bsp_storm (storm_test.go:
+// End/Shutdown storms on an idle processor), provider_pipeline
+// (pipeline_test.go: several processors behind one TracerProvider).
 package c01
 
 import (
@@ -32,6 +48,7 @@ import (
 	"errors"
 	"fmt"
 	"io"
+	"os"
 	rtrace "runtime/trace"
 	"sync"
 	"sync/atomic"
@@ -55,33 +72,170 @@ type Op struct {
 	U bool   `json:"u,omitempty"` // span is unsampled (end)
 	P int    `json:"p,omitempty"` // perturbation before the op (vk.Perturb)
 	T int    `json:"t,omitempty"` // flush/shutdown: ctx timeout in microseconds, 0 = none, -1 = already cancelled, -2/-3/-6 = cancelled 0.3/0.6/1.5 ms after the call was issued
-	D int    `json:"d,omitempty"` // end (through a provider only): D more goroutines End the same span at the same moment - it is still one span, exported once
+	D int    `json:"d,omitempty"` // end (through a provider only): D more goroutines End the same span at the same moment - it is still one span, exported once; -1: the same goroutine calls End twice in a row
+	// N (end): the op ends N consecutive spans S..S+N-1 in a tight loop (0 and
+	// 1 both mean one span): bursts far larger than the usual queue sizes.
+	N int `json:"n,omitempty"`
+	// F is the whole trace-flags byte the span inherits (end): through a
+	// provider it is the flags byte of the parent span context the span is
+	// started under (the SDK copies the parent's other bits to the child), on
+	// the bare processor it is the flags byte of the snapshot. Bit 0 of the
+	// span itself is always decided by U ("sampled" is that bit, nothing else).
+	F int `json:"f,omitempty"`
+	// R: kind of parent through a provider: 0 none (root span, F has no
+	// effect), 1 remote parent span context, 2 local parent span context.
+	R int `json:"r,omitempty"`
+}
+
+// genFlags draws a whole trace-flags byte: mostly plain 0/1, otherwise any of
+// the 256 values with the corners (W3C level-2 random-trace-id bit, reserved
+// bits, all ones) over-represented.
+func genFlags(t *rapid.T) int {
+	return rapid.OneOf(
+		rapid.SampledFrom([]int{0, 1}),
+		rapid.IntRange(0, 255),
+		rapid.SampledFrom([]int{0x02, 0x03, 0x80, 0x81, 0xfe, 0xff}),
+	).Draw(t, "trace_flags")
+}
+
+// genLogScale draws from [lo, hi] with the magnitude, not the value, uniform.
+func genLogScale(lo, hi int) *rapid.Generator[int] {
+	return rapid.Custom(func(t *rapid.T) int {
+		if hi <= lo {
+			return lo
+		}
+		bits := 0
+		for (hi-lo)>>bits > 0 {
+			bits++
+		}
+		b := rapid.IntRange(0, bits).Draw(t, "magnitude")
+		top := lo + (1<<b - 1)
+		if top > hi {
+			top = hi
+		}
+		return rapid.IntRange(lo+(1<<b)/2, top).Draw(t, "value")
+	})
+}
+
+// expand replaces burst ops by runs of single-span ops (same flags; the
+// perturbation only before the first span).
+func expand(phases [][][]Op) [][][]Op {
+	out := make([][][]Op, len(phases))
+	for pi, ph := range phases {
+		out[pi] = make([][]Op, len(ph))
+		for g, ops := range ph {
+			for _, op := range ops {
+				if op.K != "end" || op.N <= 1 {
+					op.N = 0
+					out[pi][g] = append(out[pi][g], op)
+					continue
+				}
+				for j := 0; j < op.N; j++ {
+					o := op
+					o.N, o.S, o.D = 0, op.S+j, 0
+					if j > 0 {
+						o.P = 0
+					}
+					out[pi][g] = append(out[pi][g], o)
+				}
+			}
+		}
+	}
+	return out
+}
+
+// envSpelling returns the OTEL_BSP_* variables that express the settings
+// selected by c.Env. The variables hold whole milliseconds / plain counts, and
+// the SDK clips an environment batch size that exceeds the environment (or
+// default, 2048) queue size, so only values the variable expresses exactly
+// are moved there; everything else stays an option.
+func envSpelling(c Case) (env map[string]string, viaEnv int) {
+	env = map[string]string{}
+	if c.Env&1 != 0 && c.Queue >= 1 {
+		env["OTEL_BSP_MAX_QUEUE_SIZE"] = fmt.Sprint(c.Queue)
+		viaEnv |= 1
+	}
+	if c.Env&2 != 0 && c.Batch >= 1 && c.Batch <= c.Queue && c.Batch <= 2048 {
+		env["OTEL_BSP_MAX_EXPORT_BATCH_SIZE"] = fmt.Sprint(c.Batch)
+		viaEnv |= 2
+	}
+	if c.Env&4 != 0 && c.BatchTimeoutUs >= 1000 && c.BatchTimeoutUs%1000 == 0 {
+		env["OTEL_BSP_SCHEDULE_DELAY"] = fmt.Sprint(c.BatchTimeoutUs / 1000)
+		viaEnv |= 4
+	}
+	if c.Env&8 != 0 && c.ExportTimeoutUs >= 1000 && c.ExportTimeoutUs%1000 == 0 {
+		env["OTEL_BSP_EXPORT_TIMEOUT"] = fmt.Sprint(c.ExportTimeoutUs / 1000)
+		viaEnv |= 8
+	}
+	return env, viaEnv
+}
+
+// spanFlags is the flags byte a span with inherited byte f must carry.
+func spanFlags(f int, unsampled bool) trace.TraceFlags {
+	fl := trace.TraceFlags(f) &^ trace.FlagsSampled
+	if !unsampled {
+		fl |= trace.FlagsSampled
+	}
+	return fl
+}
+
+// parentCtx returns the context a span with (F, R) is started under.
+func parentCtx(f, r, i int) context.Context {
+	if r == 0 {
+		return context.Background()
+	}
+	var tid trace.TraceID
+	var sid trace.SpanID
+	binary.BigEndian.PutUint64(tid[8:], uint64(i+1))
+	tid[0] = 0xc1
+	binary.BigEndian.PutUint64(sid[:], uint64(i+1)|1<<40)
+	psc := trace.NewSpanContext(trace.SpanContextConfig{TraceID: tid, SpanID: sid, TraceFlags: trace.TraceFlags(f), Remote: r == 1})
+	if r == 1 {
+		return trace.ContextWithRemoteSpanContext(context.Background(), psc)
+	}
+	return trace.ContextWithSpanContext(context.Background(), psc)
 }
 
 // Case is one generated program.
 type Case struct {
-	Queue           int      `json:"queue"`
-	Batch           int      `json:"batch"`
-	BatchTimeoutUs  int64    `json:"batch_timeout_us"`
-	ExportTimeoutUs int64    `json:"export_timeout_us"`
-	Blocking        bool     `json:"blocking"`
-	ViaProvider     bool     `json:"via_provider"`
-	ExecTrace       bool     `json:"exec_trace,omitempty"` // the Go execution tracer (runtime/trace) runs during the program
-	Phases          [][][]Op `json:"phases"`               // phase -> goroutine -> ops; phases are separated by barriers
-	Exporter        []int    `json:"exporter"`             // behaviour of the n-th ExportSpans call: 0 ok, 1 error, 2 sleep 50us, 3 sleep 1ms, 4 sleep 3ms, 5 block until ctx is done (cap 4ms) and return its error
-	Runs            int      `json:"runs"`
+	Queue           int   `json:"queue"`
+	Batch           int   `json:"batch"`
+	BatchTimeoutUs  int64 `json:"batch_timeout_us"`
+	ExportTimeoutUs int64 `json:"export_timeout_us"`
+	Blocking        bool  `json:"blocking"`
+	// Env: which settings are given through the OTEL_BSP_* environment
+	// variables instead of the option (bit 0 queue size, 1 batch size, 2 batch
+	// timeout, 3 export timeout); a bit is honoured only where the variable can
+	// express the value (see envSpelling).
+	Env         int      `json:"env,omitempty"`
+	ViaProvider bool     `json:"via_provider"`
+	ExecTrace   bool     `json:"exec_trace,omitempty"` // the Go execution tracer (runtime/trace) runs during the program
+	Phases      [][][]Op `json:"phases"`               // phase -> goroutine -> ops; phases are separated by barriers
+	Exporter    []int    `json:"exporter"`             // behaviour of the n-th ExportSpans call: 0 ok, 1 error, 2 sleep 50us, 3 sleep 1ms, 4 sleep 3ms, 5 block until ctx is done (cap 4ms) and return its error
+	Runs        int      `json:"runs"`
 }
 
 func gen(t *rapid.T) Case {
 	c := Case{}
-	c.Queue = rapid.OneOf(rapid.IntRange(1, 4), rapid.IntRange(1, 64)).Draw(t, "queue")
-	c.Batch = rapid.IntRange(1, c.Queue+4).Draw(t, "batch")
-	c.BatchTimeoutUs = rapid.SampledFrom([]int64{1000, 10000, 3600e6, 3600e6}).Draw(t, "batch_timeout")
-	c.ExportTimeoutUs = rapid.SampledFrom([]int64{0, 2000, 1e6}).Draw(t, "export_timeout")
+	big := rapid.IntRange(0, 7).Draw(t, "wide_sizes") == 0
+	if big {
+		// occasionally sizes from a wide log-scale range, the SDK defaults included
+		c.Queue = rapid.OneOf(genLogScale(65, 4096), rapid.Just(2048)).Draw(t, "queue")
+		c.Batch = rapid.OneOf(genLogScale(1, c.Queue+4), rapid.Just(512), rapid.Just(c.Queue)).Draw(t, "batch")
+	} else {
+		c.Queue = rapid.OneOf(rapid.IntRange(1, 4), rapid.IntRange(1, 64)).Draw(t, "queue")
+		c.Batch = rapid.IntRange(1, c.Queue+4).Draw(t, "batch")
+	}
+	c.BatchTimeoutUs = rapid.SampledFrom([]int64{0, 50, 1000, 1000, 10000, 10000, 3600e6, 3600e6, 3600e6, 3600e6}).Draw(t, "batch_timeout")
+	c.ExportTimeoutUs = rapid.SampledFrom([]int64{0, 0, 50, 2000, 2000, 1e6, 1e6}).Draw(t, "export_timeout")
 	c.Blocking = rapid.Bool().Draw(t, "blocking")
+	if rapid.IntRange(0, 3).Draw(t, "env_config") == 0 {
+		c.Env = rapid.IntRange(1, 15).Draw(t, "env_bits")
+	}
 	c.ViaProvider = rapid.IntRange(0, 3).Draw(t, "via_provider") == 0
 	c.ExecTrace = c.ViaProvider && rapid.IntRange(0, 2).Draw(t, "exec_trace") == 0
 	next := 0
+	bursty := big || rapid.IntRange(0, 5).Draw(t, "bursty") == 0
 	nphases := rapid.IntRange(1, 5).Draw(t, "phases")
 	shutdownSeen := false
 	for p := 0; p < nphases; p++ {
@@ -101,9 +255,18 @@ func gen(t *rapid.T) Case {
 				}
 				budget -= n
 				var ops []Op
-				for i := 0; i < n; i++ {
-					ops = append(ops, Op{K: "end", S: next, P: rapid.IntRange(0, 2).Draw(t, "p")})
-					next++
+				for left := n; left > 0; {
+					op := Op{K: "end", S: next, P: rapid.IntRange(0, 2).Draw(t, "p"), F: genFlags(t)}
+					op.R = rapid.IntRange(0, 2).Draw(t, "parent")
+					if op.F > 1 && op.R == 0 {
+						op.R = 1
+					}
+					if left > 12 {
+						op.N = rapid.IntRange(left/4+1, left).Draw(t, "burst")
+					}
+					ops = append(ops, op)
+					next += max(op.N, 1)
+					left -= max(op.N, 1)
 				}
 				phase = append(phase, ops)
 			}
@@ -118,7 +281,17 @@ func gen(t *rapid.T) Case {
 					case k < 14:
 						op.K, op.S = "end", next
 						op.U = rapid.IntRange(0, 7).Draw(t, "unsampled") == 0
-						op.D = rapid.SampledFrom([]int{0, 0, 0, 0, 0, 1, 1, 3}).Draw(t, "racing_ends")
+						op.D = rapid.SampledFrom([]int{0, 0, 0, 0, 0, 0, 1, 1, 3, -1}).Draw(t, "racing_ends")
+						if bursty && rapid.IntRange(0, 11).Draw(t, "burst") == 0 {
+							op.D = 0
+							op.N = genLogScale(2, 3000).Draw(t, "burst_len")
+							next += op.N - 1
+						}
+						op.F = genFlags(t)
+						op.R = rapid.IntRange(0, 2).Draw(t, "parent")
+						if op.F > 1 && op.R == 0 {
+							op.R = 1
+						}
 						next++
 					case k < 18:
 						op.K = "flush"
@@ -218,6 +391,8 @@ func (e *recExporter) ExportSpans(ctx context.Context, spans []sdktrace.ReadOnly
 		case <-e.latch:
 		case <-time.After(2 * time.Second):
 		}
+	case 7:
+		time.Sleep(20 * time.Millisecond) // a hung backend (bounded): ignores its context
 	}
 	e.mu.Lock()
 	call.err = err != nil
@@ -296,6 +471,31 @@ func runOnce(c Case) ([]vk.Violation, map[string]bool) {
 	errs := &vk.ErrCapture{}
 	otel.SetErrorHandler(errs)
 
+	for _, ph := range c.Phases {
+		for _, ops := range ph {
+			for _, op := range ops {
+				if op.K == "end" && op.N > 1 {
+					classes["burst_of_ends"] = true
+					if op.N > c.Queue {
+						classes["burst_longer_than_queue"] = true
+					}
+				}
+				if op.K == "end" && op.D < 0 && c.ViaProvider {
+					classes["End_called_twice_in_a_row"] = true
+				}
+			}
+		}
+	}
+	if c.Queue > 64 {
+		classes["queue_above_64"] = true
+	}
+	if c.Batch >= 512 {
+		classes["batch_512_or_more"] = true
+	}
+	if c.BatchTimeoutUs < 1000 {
+		classes["batch_timeout_below_1ms"] = true
+	}
+	c.Phases = expand(c.Phases)
 	nspans := 0
 	for _, ph := range c.Phases {
 		for _, ops := range ph {
@@ -310,22 +510,53 @@ func runOnce(c Case) ([]vk.Violation, map[string]bool) {
 	total := nspans + extra
 
 	exp := &recExporter{clock: clock, script: c.Exporter}
-	opts := []sdktrace.BatchSpanProcessorOption{
-		sdktrace.WithMaxQueueSize(c.Queue), sdktrace.WithMaxExportBatchSize(c.Batch),
-		sdktrace.WithBatchTimeout(time.Duration(c.BatchTimeoutUs) * time.Microsecond),
-		sdktrace.WithExportTimeout(time.Duration(c.ExportTimeoutUs) * time.Microsecond),
+	envVars, viaEnv := envSpelling(c)
+	var opts []sdktrace.BatchSpanProcessorOption
+	if viaEnv&1 == 0 {
+		opts = append(opts, sdktrace.WithMaxQueueSize(c.Queue))
+	}
+	if viaEnv&2 == 0 {
+		opts = append(opts, sdktrace.WithMaxExportBatchSize(c.Batch))
+	}
+	if viaEnv&4 == 0 {
+		opts = append(opts, sdktrace.WithBatchTimeout(time.Duration(c.BatchTimeoutUs)*time.Microsecond))
+	}
+	if viaEnv&8 == 0 {
+		opts = append(opts, sdktrace.WithExportTimeout(time.Duration(c.ExportTimeoutUs)*time.Microsecond))
 	}
 	if c.Blocking {
 		opts = append(opts, sdktrace.WithBlocking())
 	}
+	for _, k := range []string{"OTEL_BSP_MAX_QUEUE_SIZE", "OTEL_BSP_MAX_EXPORT_BATCH_SIZE", "OTEL_BSP_SCHEDULE_DELAY", "OTEL_BSP_EXPORT_TIMEOUT"} {
+		if v, ok := envVars[k]; ok {
+			os.Setenv(k, v)
+		} else {
+			os.Unsetenv(k)
+		}
+	}
 	bsp := sdktrace.NewBatchSpanProcessor(exp, opts...)
+	for k := range envVars {
+		os.Unsetenv(k)
+	}
+	if viaEnv != 0 {
+		classes["some_settings_from_OTEL_BSP_environment"] = true
+		if viaEnv&3 != 0 {
+			classes["queue_or_batch_size_from_environment"] = true
+		}
+	}
 
 	unsampled := make([]bool, total)
+	inherit := make([]int, total) // inherited flags byte
+	parent := make([]int, total)  // parent kind (provider)
 	for _, ph := range c.Phases {
 		for _, ops := range ph {
 			for _, op := range ops {
 				if op.K == "end" {
 					unsampled[op.S] = op.U
+					inherit[op.S], parent[op.S] = op.F&0xff, op.R
+					if op.F&0xfe != 0 && (!c.ViaProvider || op.R != 0) {
+						classes[fmt.Sprintf("span_with_other_trace_flag_bits/sampled=%v", !op.U)] = true
+					}
 				}
 			}
 		}
@@ -347,7 +578,7 @@ func runOnce(c Case) ([]vk.Violation, map[string]bool) {
 		spans := make([]trace.Span, total)
 		ids := map[trace.SpanID]int{}
 		for i := range spans {
-			_, spans[i] = tr.Start(context.Background(), "s", trace.WithAttributes(attribute.Bool("verif.unsampled", unsampled[i])))
+			_, spans[i] = tr.Start(parentCtx(inherit[i], parent[i], i), "s", trace.WithAttributes(attribute.Bool("verif.unsampled", unsampled[i])))
 			ids[spans[i].SpanContext().SpanID()] = i
 		}
 		exp.idOf = func(s sdktrace.ReadOnlySpan) int {
@@ -357,8 +588,11 @@ func runOnce(c Case) ([]vk.Violation, map[string]bool) {
 			return -1
 		}
 		endSpan = func(i, d int) {
-			if d == 0 {
+			if d <= 0 {
 				spans[i].End()
+				if d < 0 {
+					spans[i].End() // a second End is a no-op: still one span, exported once
+				}
 				return
 			}
 			// d+1 goroutines End the span, released together by a spin barrier
@@ -381,10 +615,7 @@ func runOnce(c Case) ([]vk.Violation, map[string]bool) {
 		for i := range snaps {
 			var sid trace.SpanID
 			binary.BigEndian.PutUint64(sid[:], uint64(i+1))
-			flags := trace.FlagsSampled
-			if unsampled[i] {
-				flags = 0
-			}
+			flags := spanFlags(inherit[i], unsampled[i])
 			snaps[i] = tracetest.SpanStub{
 				Name:        "s",
 				SpanContext: trace.NewSpanContext(trace.SpanContextConfig{TraceID: trace.TraceID{1}, SpanID: sid, TraceFlags: flags}),
@@ -795,11 +1026,11 @@ func run(c Case) ([]vk.Violation, vk.Info) {
 func TestBatchSpanProcessor(t *testing.T) {
 	vk.Run(t, vk.Spec[Case]{
 		Property: "C01", Check: "bsp_history",
-		Rule: "generated concurrent programs (1-5 barrier-separated phases of 1-6 goroutines issuing End/ForceFlush/Shutdown/pauses with generated contexts and schedule perturbations) x BatchSpanProcessor configurations (queue 1-64, batch 1-queue+4, batch timeout 1ms/10ms/1h, export timeout 0/2ms/1s, blocking or not, bare processor or through a TracerProvider) x exporter fault plans (ok/error/slow/blocks until its context expires); each program is executed twice; " +
+		Rule: "generated concurrent programs (1-5 barrier-separated phases of 1-6 goroutines issuing End (whole trace-flags byte, root/remote/local parent, single spans, bursts of up to 3000, one span ended by several goroutines or twice in a row) /ForceFlush/Shutdown/pauses with generated contexts and schedule perturbations) x BatchSpanProcessor configurations (queue 1-64, one case in eight log-scale up to 4096 incl. the defaults 2048/512, batch 1-queue+4, batch timeout 0/50us/1ms/10ms/1h, export timeout 0/50us/2ms/1s, each setting by option or OTEL_BSP_* variable, blocking or not, bare processor or through a TracerProvider) x exporter fault plans (ok/error/slow/blocks until its context expires); each program is executed twice; " +
 			"non-trivial = the program has >= 2 producer goroutines in a phase or a ForceFlush, and >= 2 export batches were observed; distinct = distinct case encodings",
 		Quick: 300, Thorough: 3000,
 		Gen: gen, Run: run, Repeat: 100,
-		ShrinkTime: 30 * time.Second,
+		ShrinkTime: 15 * time.Second,
 	})
 }
 
@@ -819,6 +1050,9 @@ type FillCase struct {
 	// span, batch timeout 1ms) instead of a ForceFlush goroutine; then the
 	// worker cannot take anything out of the queue while it fills.
 	Timer bool `json:"timer"`
+	// Flags: the trace-flags byte every span inherits (whole byte generated;
+	// all spans of this scenario are sampled, i.e. bit 0 is set on the span).
+	Flags int `json:"flags,omitempty"`
 }
 
 func genFill(t *rapid.T) FillCase {
@@ -833,6 +1067,7 @@ func genFill(t *rapid.T) FillCase {
 	}
 	c.Provider = rapid.Bool().Draw(t, "via_provider")
 	c.Timer = rapid.Bool().Draw(t, "timer")
+	c.Flags = genFlags(t)
 	return c
 }
 
@@ -865,7 +1100,11 @@ func runFill(c FillCase) ([]vk.Violation, vk.Info) {
 		spans := make([]trace.Span, total)
 		ids := map[trace.SpanID]int{}
 		for i := range spans {
-			_, spans[i] = tr.Start(context.Background(), "s")
+			r := 0
+			if c.Flags > 1 {
+				r = 1 + i%2
+			}
+			_, spans[i] = tr.Start(parentCtx(c.Flags|1, r, i), "s")
 			ids[spans[i].SpanContext().SpanID()] = i
 		}
 		exp.idOf = func(s sdktrace.ReadOnlySpan) int { return ids[s.SpanContext().SpanID()] }
@@ -879,7 +1118,7 @@ func runFill(c FillCase) ([]vk.Violation, vk.Info) {
 		end = func(i int) {
 			var sid trace.SpanID
 			binary.BigEndian.PutUint64(sid[:], uint64(i+1))
-			bsp.OnEnd(tracetest.SpanStub{Name: "s", SpanContext: trace.NewSpanContext(trace.SpanContextConfig{TraceID: trace.TraceID{1}, SpanID: sid, TraceFlags: trace.FlagsSampled})}.Snapshot())
+			bsp.OnEnd(tracetest.SpanStub{Name: "s", SpanContext: trace.NewSpanContext(trace.SpanContextConfig{TraceID: trace.TraceID{1}, SpanID: sid, TraceFlags: spanFlags(c.Flags, false)})}.Snapshot())
 		}
 		flush, shutdown = bsp.ForceFlush, bsp.Shutdown
 	}
@@ -981,6 +1220,7 @@ func runFill(c FillCase) ([]vk.Violation, vk.Info) {
 	info.ClassIf(c.Batch > c.Queue, "batch_larger_than_queue")
 	info.ClassIf(c.Queue == 1, "queue_of_one")
 	info.ClassIf(c.Blocking, "blocking_mode")
+	info.ClassIf(c.Flags&0xfe != 0, "sampled_spans_with_other_trace_flag_bits")
 	return vs, info
 }
 
